@@ -26,7 +26,7 @@ static void phase(long ridx, TriggerVariable& tv, bool starts_active, uint64_t& 
     int finisher = static_cast<int>(rng.below(3));  // 0 trigger, 1 reset, 2 trigger then reset
     int act_delay = static_cast<int>(rng.below(5)), fin_delay = static_cast<int>(rng.below(6));
     std::vector<int> forms, gates;
-    for (int i = 0; i < n_actw + n_trgw; i++) forms.push_back(static_cast<int>(rng.below(3)));  // 0 untimed, 1 timed short, 2 timed long
+    for (int i = 0; i < n_actw + n_trgw; i++) forms.push_back(static_cast<int>(rng.below(4)));  // 0 untimed, 1 timed short, 2 timed long, 3 timed with a negative duration
     // how a trigger waiter learns that the variable is activated: 0 activate() has returned, 1 it polled isActive(), 2 its own waitActivation() returned
     for (int i = 0; i < n_trgw; i++) gates.push_back(static_cast<int>(rng.below(3)));
     std::string pj = "{\"starts_active\":" + std::to_string(starts_active) + ",\"activation_waiters\":" + std::to_string(n_actw) + ",\"trigger_waiters\":" +
@@ -36,7 +36,7 @@ static void phase(long ridx, TriggerVariable& tv, bool starts_active, uint64_t& 
     Stamps st;
     std::atomic<uint64_t> cvw{0}, timed_false{0};
     std::atomic<int> actw_done{0}, gate_passed{0};
-    static const int durs_ms[] = {0, 0, 1, 50};
+    static const int durs_ms[] = {0, 0, 1, 50, -1};
     if (starts_active) {
         st.act_call.store(1);
         st.act_ret.store(1);
